@@ -104,6 +104,17 @@ func c20Scenarios(tier string) []*Scenario {
 			add("s2c-header-repeat", "", RPC{Kind: "ss", Client: cat([]string{"S0", "C"}, hs, []string{"R"}), Handler: cat([]string{"r"}, hdr, sends("s", 6), []string{"ret:ok"})})
 		}
 	}
+	for _, hdr := range [][]string{nil, {"h:a"}} {
+		add("s2c-header-repeat", "", RPC{Kind: "bd", Client: []string{"S0", "C", "H"}, Client2: []string{"H"}, Handler: cat([]string{"r"}, hdr, sends("s", 6), []string{"ret:ok"})})
+		add("s2c-header-repeat", "", RPC{Kind: "bd", Client: []string{"S0", "C", "H", "R"}, Client2: []string{"H", "H"}, Handler: cat([]string{"r"}, hdr, sends("s", 6), []string{"ret:ok"})})
+	}
+	// the handler returns while a goroutine it started is stalled in SendMsg and the client, not
+	// receiving, is held back in its own SendMsg: the handler's return releases everybody
+	for n := 2; n <= maxN; n++ {
+		for k := 0; k <= 1; k++ {
+			add("c2s-finish", "", RPC{Kind: "bd", Client: sends("S", n), Handler: cat([]string{"go"}, rep("r", k), []string{"ret:ok"}), Handler2: []string{"s0", "s1", "s2"}})
+		}
+	}
 	return out
 }
 
@@ -204,6 +215,12 @@ func c20Oracle(sc *Scenario, rec *Rec, s *mc.Sched) []mc.Violation {
 	case "c2s-cancel", "s2c-cancel", "c2s-finish":
 		// released: nothing may still be parked in an API call
 		for _, b := range blocked {
+			if len(rpc.Handler2) > 0 && strings.HasSuffix(b.Name, "b") && strings.HasPrefix(b.Where, "handler:") {
+				// a goroutine the handler did not wait for is still inside SendMsg when the handler returns:
+				// using the stream past the handler's return is the application's error; what is demanded
+				// is that the *client* is released
+				continue
+			}
 			if strings.HasPrefix(b.Where, "client:") || b.Where == "handler:SendMsg" || b.Where == "handler:RecvMsg" {
 				out = append(out, mc.Violation{Clause: "not-released", Obs: name + ": " + b.Where + " on " + b.Op, Detail: blocked})
 			}
